@@ -58,6 +58,7 @@ void SimulateNull::dump_registers()
 
 int SimulateNull::run(int max_cycles, int step)
 {
+  enable_signal_handler();
   stop_running = false;
 
   while (stop_running == false)
